@@ -113,6 +113,19 @@ def run_exit_in_operand(ctx):
                 ctx.violation("C04:exit-in-operand:%s" % name, "%s -> %s; `%s` should end the loop body at once" % (src, got, xname), {"src": src})
 
 
+STRAY_EXITS = [
+    ("called-in-loop-body", "def stop() {X}; def r = []; for i in [1, 2, 3] do stop(); append(r, i) end; r"),
+    ("called-in-loop-body-conditionally", "def stop(x) do if x == 2 then {X}; x end; def r = []; for i in [1, 2, 3] do stop(i); append(r, i) end; r"),
+    ("called-in-while-body", "def stop() {X}; def n = 0; while n < 3 do n += 1; stop() end; n"),
+    ("callback-of-a-library-loop", "def r = []; for_each([1, 2, 3], fn(x) do if x == 2 then {X}; append(r, x) end); r"),
+    ("callback-of-map_list", "map_list([1, 2, 3], fn(x) do if x == 2 then {X}; x end)"),
+    ("method-called-in-loop", "def o = <*stop = fn(self) {X}*>; def r = []; for i in [1, 2] do o->stop(); append(r, i) end; r"),
+    ("lambda-called-at-once-in-loop", "def r = []; for i in [1, 2] do (fn() {X})(); append(r, i) end; r"),
+    ("outside-any-loop", "def f() do if TRUE then {X}; 1 end; [f()]"),
+    ("in-comprehension-element", "def stop() {X}; [do stop(); x end for x in [1, 2]]"),
+]
+
+
 def run_returns(spec, ctx):
     """`return` leaves the innermost function with its value wherever that function was called from: directly, or by a
     library function that was handed it as a callback"""
@@ -143,6 +156,16 @@ def run_returns(spec, ctx):
             ctx.case(("return", legacy, name, bname), nontrivial=True)
             if got != base:
                 ctx.violation("C04:return-from-callback:%s:%s" % (name, bname), "%s -> %s %s, but with the plain body (%s) -> %s" % (src, got[0], got[1], e, base[1]), {"src": src})
+    # break / continue affect the innermost enclosing loop *of the same function*: written in a function body outside any
+    # loop of that function they are an error - they never reach a loop of the caller
+    for exit_ in ("break", "continue"):
+        for name, tmpl in STRAY_EXITS:
+            src = tmpl.replace("{X}", exit_)
+            got = ev(src)
+            ctx.count("stray_exit_programs")
+            ctx.case(("stray-exit", legacy, name, exit_), nontrivial=True)
+            if got[0] != "rte":
+                ctx.violation("C04:exit-crosses-function:%s:%s" % (name, exit_), "%s -> %s %s; a %s outside any loop of its own function is an error" % (src, got[0], got[1], exit_), {"src": src})
     ctx.sample({"return_callbacks": len(RETURN_CALLBACKS), "bodies": len(RETURN_BODIES)})
     if legacy:
         run_exit_in_operand(ctx)
